@@ -140,7 +140,7 @@ def _enclosing_loops(node, stop):
     return out
 
 
-def path_conditions(node, kill_names=None, extra_kill_calls=()):
+def path_conditions(node, kill_names=None, extra_kill_calls=(), check_kills=True):
     """Conditions that hold whenever `node` is evaluated, innermost first.
 
     A condition is dropped when a name it reads may be rebound between the test and
@@ -205,7 +205,7 @@ def path_conditions(node, kill_names=None, extra_kill_calls=()):
             break
         child = p
         p = getattr(p, '_parent', None)
-    if func is None:
+    if func is None or not check_kills:
         return conds
     # kill analysis
     kept = []
